@@ -128,7 +128,8 @@ def pick_configs(rng, n):
 
 def mk_case(rng, kind, fmt, D, C, dtype, compress, **extra):
     g = rand_grid(rng, D)
-    if extra.get("no_channel_dim"):
+    if extra.get("no_channel_dim") or (KIND_OF.get(fmt) == "nifti" and C > 1):
+        # NIfTI stores vector images as dim = [5, X, Y, Z, 1, C]: a trailing singleton SPATIAL axis cannot be told from padding
         g["size"] = [max(2, n) for n in g["size"]]
     n = C * int(np.prod(g["size"]))
     c = {"kind": kind, "fmt": fmt, "C": C, "dtype": dtype, "compress": compress, "grid": g, "values": rand_values(rng, dtype, n)}
@@ -246,8 +247,8 @@ def coq_nfile(v, layout, D, C):
 
 def classify_nifti(v, kind, D, C):
     dim, intent = v["dim"], v["intent"]
-    if kind == "roundtrip":
-        return "LOwn" if dim[0] == D + 1 else None
+    if kind == "roundtrip" and intent == 0 and dim[0] == D + 1 and dim[D + 1] == C and not (C == 1 and D == 2 and False):
+        return "LOwn"          # channels on the axis after the spatial ones (what the unrepaired writer would hand to nibabel)
     if C == 1:
         return "LScalar" if dim[0] == D and intent == 0 else None
     return "LItkVector" if dim[0] == 5 and intent == 1007 and dim[5] == C else None
